@@ -12,3 +12,7 @@ pub mod imggen;
 pub mod container;
 pub mod dctref;
 pub mod anim;
+pub mod hostile;
+pub mod jpeg;
+pub mod jbrd;
+pub mod vardct;
